@@ -105,7 +105,7 @@ def check_C14(chk, tier, seed):
     for i, ((kind, c, ex), im, mo) in enumerate(zip(lines, impl, model)):
         if kind == "D":
             if im.startswith("PANIC") or im.startswith("CRASH") or im.startswith("BADCASE"):
-                chk.violation("loading a generated dictionary failed: " + short(im, 200), dict(case=short(c, 4000), impl=short(im)))
+                chk.violation("loading a generated dictionary failed: " + short(im, 200), dict(case=c, impl=short(im)))
             continue
         want, nops, nkeys = ex
         chk.case(c + str(i), nops >= 2)
@@ -114,30 +114,30 @@ def check_C14(chk, tier, seed):
         got = im.split()[1:]
         ok = True
         if not im.startswith("Q") or len(got) != len(want):
-            chk.violation("lookup did not return: " + short(im, 200), dict(case=short(c, 3000), impl=short(im)))
+            chk.violation("lookup did not return: " + short(im, 200), dict(case=c, impl=short(im)))
             continue
         for (k, w), g in zip(want, got):
             chk.count("q:" + k)
             if "!inconsistent" in g:
                 ok = False
-                chk.violation("get_avp / get_avp_type / get_avp_name disagree about one key", dict(case=short(c, 3000), impl=short(im, 3000)))
+                chk.violation("get_avp / get_avp_type / get_avp_name disagree about one key", dict(case=c, impl=short(im, 3000)))
                 break
             if k == "name":
                 if (g == "none") != (not w) or (w and g not in w):
                     ok = False
-                    chk.violation(f"lookup by name returned {g}; live definitions with that name: {w}", dict(case=short(c, 3000), history=short(lines[i - 1][1], 6000), impl=short(im, 3000)))
+                    chk.violation(f"lookup by name returned {g}; live definitions with that name: {w}", dict(case=c, history=short(lines[i - 1][1], 6000), impl=short(im, 3000)))
                     break
                 if len(w) > 1:
                     chk.count("name:ambiguous")
             elif g != w:
                 ok = False
                 chk.violation(f"{k} lookup returned {g}, the most recent definition for exactly that key is {w}",
-                              dict(case=short(c, 3000), history=short(lines[i - 1][1], 6000), impl=short(im, 3000)))
+                              dict(case=c, history=short(lines[i - 1][1], 6000), impl=short(im, 3000)))
                 break
         if ok and im != mo:
-            chk.corr_break("lookup observation differs from the model", dict(case=short(c, 3000), history=short(lines[i - 1][1], 6000), impl=short(im, 2000), model=short(mo, 2000)))
+            chk.corr_break("lookup observation differs from the model", dict(case=c, history=short(lines[i - 1][1], 6000), impl=short(im, 2000), model=short(mo, 2000)))
         if i % max(1, len(lines) // 6) == 0:
-            chk.sample(dict(case=short(c, 200), impl=short(im, 200), P=ok))
+            chk.sample(dict(case=c, impl=short(im, 200), P=ok))
     chk.rule = (f"{nh} operation histories (0-2 documents passed to the constructor, then loads of generated XML documents and add_avp calls) over "
                 "a pool of colliding codes/vendors/names, 17 `must` spellings, 16 type names + near misses; after EVERY step: 16 keyed lookups "
                 "(get_avp, get_avp_type, get_avp_name cross-checked), 10 name lookups, 4 application and 4 command lookups, compared with an independent "
@@ -227,7 +227,7 @@ def check_C15(chk, tier, seed):
         chk.count("kind:" + ex[0])
         ok = True
         if im.startswith("PANIC") or im.startswith("CRASH"):
-            chk.violation("crash: " + short(im, 200), dict(case=short(c, 3000), impl=short(im)))
+            chk.violation("crash: " + short(im, 200), dict(case=c, impl=short(im)))
             continue
         if ex[0] == "scope":
             _, ty, tyname, scope, wire_v = ex
@@ -236,13 +236,13 @@ def check_C15(chk, tier, seed):
                 ok = False
                 chk.violation(f"AVP (code 5000, vendor {wire_v}) with the only entry under vendor {scope} and type name '{tyname}': "
                               + ("decoded although no entry / no recognised type applies" if not want_ok else "rejected although its exact entry has a recognised type"),
-                              dict(case=short(c, 3000), impl=short(im, 1000)))
+                              dict(case=c, impl=short(im, 1000)))
             elif want_ok:
                 a = parse_result(im)["msg"]["avps"][0]
                 kind = KIND_TY.get(a["val"][1]) if a["val"][0] == "L" else "grp"
                 if kind != ty:
                     ok = False
-                    chk.violation(f"type name '{tyname}' produced a value of kind {kind}, expected {ty}", dict(case=short(c, 3000), impl=short(im, 1000)))
+                    chk.violation(f"type name '{tyname}' produced a value of kind {kind}, expected {ty}", dict(case=c, impl=short(im, 1000)))
         elif ex[0] == "def":
             if im != "Q " + ex[1]:
                 ok = False
@@ -250,24 +250,24 @@ def check_C15(chk, tier, seed):
         elif ex[0] == "use":
             if not im.startswith("OK "):
                 ok = False
-                chk.violation("a shipped Grouped definition cannot be used to decode an (empty) group", dict(case=short(c, 2000), impl=short(im)))
+                chk.violation("a shipped Grouped definition cannot be used to decode an (empty) group", dict(case=c, impl=short(im)))
         else:
             _, d, leaf = ex
             d2 = dec.get(i)
             if not im.startswith("R ok 1") or d2 is None or not d2.startswith("OK "):
                 ok = False
                 chk.violation(f"shipped definition {d['name']!r} cannot be used to encode and decode a value of its declared type {d['ty']}",
-                              dict(case=short(c, 2000), impl=short(im, 1000), decoded=short(str(d2), 1000)))
+                              dict(case=c, impl=short(im, 1000), decoded=short(str(d2), 1000)))
             else:
                 a = parse_result(d2)["msg"]["avps"][0]
                 if a["val"][0] != "L" or KIND_TY.get(a["val"][1]) != d["ty"] or (int(a["code"], 16), None if a["vendor"] == "-" else int(a["vendor"], 16)) != (d["code"], d["vendor"]):
                     ok = False
                     chk.violation(f"value of shipped definition {d['name']!r} came back as {a['val'][:2]} under ({a['code']},{a['vendor']})",
-                                  dict(case=short(c, 2000), decoded=short(d2, 1000)))
+                                  dict(case=c, decoded=short(d2, 1000)))
         if ok and im != mobs:
-            chk.corr_break("observation differs from the model", dict(case=short(c, 3000), impl=short(im, 2000), model=short(mobs, 2000)))
+            chk.corr_break("observation differs from the model", dict(case=c, impl=short(im, 2000), model=short(mobs, 2000)))
         if i % max(1, len(cases) // 6) == 0:
-            chk.sample(dict(case=short(c, 160), impl=short(im, 160), P=ok))
+            chk.sample(dict(case=c, impl=short(im, 160), P=ok))
     chk.exhaustive = True
     chk.rule = ("exhaustive: 16 documented type names + 9 unknown spellings x entry scope {vendor-less, vendor 10415, vendor 77} x wire AVP {no vendor, vendor 10415} "
                 "(one-AVP frames); every definition of the built-in dictionary and of dict/3gpp-ro-rf.xml read independently with xml.etree: looked up, and "
@@ -333,27 +333,27 @@ def check_C16(chk, tier, seed):
         chk.count("kind:" + ex[0] + ":" + ex[-1][:1])
         ok = True
         if im.startswith("PANIC") or im.startswith("CRASH"):
-            chk.violation("crash: " + short(im, 200), dict(case=short(c, 3000), impl=short(im)))
+            chk.violation("crash: " + short(im, 200), dict(case=c, impl=short(im)))
             continue
         if ex[0] == "byname":
             # must equal the explicit-number construction from one of the live definitions carrying that name
             if im not in refs[i]:
                 ok = False
                 chk.violation("the AVP built from a dictionary name differs (code, vendor id, V bit, M flag or encoding) from the same AVP built from the "
-                              "numbers the dictionary declares for that name", dict(case=short(c, 2000), impl=short(im, 2000), explicit=[short(x, 2000) for x in refs[i]][:3]))
+                              "numbers the dictionary declares for that name", dict(case=c, impl=short(im, 2000), explicit=[short(x, 2000) for x in refs[i]][:3]))
             else:
                 a = parse_result(im)["msg"]["avps"][0]
                 enc = bytes.fromhex(im[im.rindex(" ENC ") + 6:])
                 vbit = bool(enc[24] & 0x80)
                 if vbit != (a["vendor"] != "-"):
                     ok = False
-                    chk.violation("V bit of the encoding does not match the presence of a vendor id", dict(case=short(c, 2000), impl=short(im, 2000)))
+                    chk.violation("V bit of the encoding does not match the presence of a vendor id", dict(case=c, impl=short(im, 2000)))
         else:
             _, ref_line, pos, did = ex
             ref = refs[i][0]
             if not (im.startswith("R ok ") and ref.startswith("R ok ")):
                 if im.split()[:2] != ref.split()[:2]:
-                    chk.corr_break("start outcome differs between a history and the same history with a failing call", dict(case=short(c, 2000), impl=short(im), ref=short(ref)))
+                    chk.corr_break("start outcome differs between a history and the same history with a failing call", dict(case=c, impl=short(im), ref=short(ref)))
                 continue
             st = im.split()[2]
             rst = ref.split()[2]
@@ -364,15 +364,15 @@ def check_C16(chk, tier, seed):
             if st != want_st:
                 ok = False
                 chk.violation("add_avp_by_name with a name the dictionary does not contain did not fail (or disturbed the result of another call)",
-                              dict(case=short(c, 3000), impl=short(im, 2000), statuses=st, expected=want_st))
+                              dict(case=c, impl=short(im, 2000), statuses=st, expected=want_st))
             elif rest_i != rest_r:
                 ok = False
                 chk.violation("a failed add_avp_by_name changed the message (AVP list, reported length or encoding)",
-                              dict(case=short(c, 3000), impl=short(im, 2000), without_the_failed_call=short(ref, 2000)))
+                              dict(case=c, impl=short(im, 2000), without_the_failed_call=short(ref, 2000)))
         if ok and im != mobs:
-            chk.corr_break("observation differs from the model", dict(case=short(c, 3000), impl=short(im, 2000), model=short(mobs, 2000)))
+            chk.corr_break("observation differs from the model", dict(case=c, impl=short(im, 2000), model=short(mobs, 2000)))
         if i % max(1, len(cases) // 6) == 0:
-            chk.sample(dict(case=short(c, 160), impl=short(im, 160), P=ok))
+            chk.sample(dict(case=c, impl=short(im, 160), P=ok))
     chk.rule = ("exhaustive over every name of the built-in, 3GPP and two generated dictionaries: built by name vs built from the explicit numbers of a live "
                 "definition with that name (observation incl. encoding must be identical); plus generated histories with one unknown-name call inserted at a "
                 "random position, compared with the same history without it")
